@@ -54,8 +54,8 @@ type snapshot struct {
 	// EDSResourceNames are the names on the resource wrappers of the two answers
 	EndpointsWarm    []*endpoint.ClusterLoadAssignment
 	EDSResourceNames [2][]string
-	Crashes      []finding // panics and undecodable resources seen while generating
-	Stage        map[string]bool
+	Crashes          []finding // panics and undecodable resources seen while generating
+	Stage            map[string]bool
 }
 
 // rdsNamesOf lists the route configuration names a listener set subscribes to: every
